@@ -2,8 +2,8 @@
    abs / round / trunc / frac / sqrt ARE Flocq's Babs / Bnearbyint / Bsqrt in the model (by definition); the transcendental functions and
    shortest-digit printing are oracles compared with Rust std by the harness. *)
 From Flocq Require Import Core BinarySingleNaN.
-Require Import ZArith NArith Bool List Arith. Import ListNotations.
-Require Import F64 Dec Types Generic Lang Builtins BuiltinFacts GenBuiltins.
+Require Import ZArith NArith Bool List Arith Reals Lia. Import ListNotations.
+Require Import F64 Dec Types Generic Lang Builtins BuiltinFacts FracFacts FremFacts GenBuiltins.
 
 (* chr and ord are mutually inverse on the whole ASCII range 0..127 and chr rejects the neighbourhood (finite sweeps; bounds in the statements) *)
 Theorem C17_chr_ord_inverse : forallb chr_ord_ok (zrange 0 128) = true.
@@ -21,6 +21,23 @@ Proof. intros x. repeat split; reflexivity. Qed.
 (* odd is the negation of even, for every number *)
 Theorem C17_odd_not_even : forall x, exists b, call_builtin 1 (A [101;118;101;110]%Z) [VNum x] = BOk (VBool b) /\ call_builtin 1 (A [111;100;100]%Z) [VNum x] = BOk (VBool (negb b)).
 Proof. intros x. eexists. split; reflexivity. Qed.
+(* even(n) holds iff n is divisible by 2, odd(n) iff not - for every integer-valued double n of either sign and any magnitude *)
+Theorem C17_even_iff_divisible : forall x n, is_finite x = true -> B2R x = IZR n ->
+  call_builtin 1 (A [101;118;101;110]%Z) [VNum x] = BOk (VBool (Z.even n)) /\ call_builtin 1 (A [111;100;100]%Z) [VNum x] = BOk (VBool (Z.odd n)).
+Proof.
+  intros x n F E. pose proof (even_spec x n F E) as H. split.
+  - change (call_builtin 1 (A [101;118;101;110]%Z) [VNum x]) with (BOk (VBool (feq (frem (ffloor x) (of_int 2)) (of_int 0)))). rewrite H. reflexivity.
+  - change (call_builtin 1 (A [111;100;100]%Z) [VNum x]) with (BOk (VBool (negb (feq (frem (ffloor x) (of_int 2)) (of_int 0))))). rewrite H, Z.negb_even. reflexivity.
+Qed.
+Example C17_even_nonvacuous : is_finite (of_int (-7)) = true /\ B2R (of_int (-7)) = IZR (-7) /\ Z.even (-7) = false.
+Proof. destruct (TimeFacts.of_int_correct (-7) ltac:(cbn; discriminate)) as [R Fi]. repeat split; assumption. Qed.
+(* trunc(x) + frac(x) = x for every finite number (as numbers: at -0 the sum is +0); both parts computed exactly *)
+Theorem C17_trunc_plus_frac : forall x, is_finite x = true ->
+  call_builtin 1 (A [116;114;117;110;99]%Z) [VNum x] = BOk (VNum (ftrunc x)) /\ call_builtin 1 (A [102;114;97;99]%Z) [VNum x] = BOk (VNum (ffract x)) /\
+  binop Plus (VNum (ftrunc x)) (VNum (ffract x)) = Ok (VNum (fadd (ftrunc x) (ffract x))) /\ feq (fadd (ftrunc x) (ffract x)) x = true /\
+  B2R (ffract x) = (B2R x - IZR (Ztrunc (B2R x)))%R.
+Proof. intros x F. repeat split; try reflexivity. apply trunc_plus_frac_eq; exact F. apply (ffract_R x F). Qed.
+Print Assumptions C17_even_iff_divisible. Print Assumptions C17_trunc_plus_frac.
 (* the name -> f64 method table of the maths macro is the documented one (regenerated from math.rs) *)
 Theorem C17_math_macro_is_the_codes : gen_math_macro =
   [(A [97;98;115]%Z, A [97;98;115]%Z); (A [97;114;99;95;116;97;110]%Z, A [97;116;97;110]%Z); (A [99;111;115]%Z, A [99;111;115]%Z); (A [101;120;112]%Z, A [101;120;112]%Z);
